@@ -16,6 +16,7 @@ import (
 	"regexp"
 	"runtime/debug"
 	"strings"
+	"syscall"
 	"time"
 
 	gonnx "github.com/advancedclimatesystems/gonnx"
@@ -153,6 +154,37 @@ func load(c *Case, env *Env) (m *gonnx.Model, o outcome) {
 		os.Chtimes(p, fixedMtime, fixedMtime)
 		o = guard(func() (err error) { m, err = gonnx.NewModelFromFile(p); return })
 		os.Remove(p)
+	case "file-fifo":
+		// the path is not a regular file but a stream (a named pipe, /dev/stdin, a process substitution): its size is
+		// unknown until it has been read to the end. A writer delivers the bytes once the reader has opened the path.
+		p := filepath.Join(env.Scratch, fmt.Sprintf("m-%d.fifo", os.Getpid()))
+		os.Remove(p)
+		if err := syscall.Mkfifo(p, 0o600); err != nil {
+			return nil, outcome{kind: "error", err: errors.New("medium cannot provide a named pipe")}
+		}
+		done := make(chan struct{})
+		go func() {
+			defer close(done)
+			w, err := os.OpenFile(p, os.O_WRONLY, 0) // blocks until a reader opens the pipe
+			if err != nil {
+				return
+			}
+			w.Write(c.Data) // EPIPE if the reader went away early
+			w.Close()
+		}()
+		o = guard(func() (err error) { m, err = gonnx.NewModelFromFile(p); return })
+		// a reader that never opened the path leaves the writer waiting: release it
+		select {
+		case <-done:
+		case <-time.After(20 * time.Millisecond):
+			if r, err := os.OpenFile(p, os.O_RDONLY|syscall.O_NONBLOCK, 0); err == nil {
+				<-done
+				r.Close()
+			} else {
+				<-done
+			}
+		}
+		os.Remove(p)
 	case "file-missing", "file-dir":
 		// the medium has no such file / offers a directory: the reader fault of a lost or misplaced model file
 		p := filepath.Join(env.Scratch, fmt.Sprintf("no-such-model-%d.onnx", os.Getpid()))
@@ -285,7 +317,7 @@ func MakeZip(data []byte, deflate bool) []byte {
 // over a fault-free view of the same archive bytes.
 func modelBytes(c *Case) ([]byte, bool) {
 	switch c.Reader {
-	case "", "bytes", "file", "proto", "proto-empty":
+	case "", "bytes", "file", "file-fifo", "proto", "proto-empty":
 		return c.Data, true
 	case "file-missing", "file-dir":
 		return nil, false
